@@ -15,6 +15,22 @@ and a theorem stops checking.  The alias rule is a heuristic and part of the tru
 Statements are walked in source order; branches are analysed separately and joined (may-alias union); loop bodies are
 analysed twice."""
 import ast, os, copy
+from py2lean import Refuse
+
+def _robust(gen, what):
+    """a source shape the spec did not anticipate is a readable refusal (tie broken), never a crash"""
+    def wrapped(repo):
+        try:
+            return gen(repo)
+        except Refuse:
+            raise
+        except (AttributeError, IndexError, KeyError, TypeError, ValueError, AssertionError) as e:
+            import traceback
+            tb = traceback.extract_tb(e.__traceback__)[-1]
+            raise Refuse(f'{what}: source has a shape this translator does not understand '
+                         f'({type(e).__name__}: {e}; while reading `{(tb.line or "").strip()[:70]}`)')
+    wrapped.__name__ = getattr(gen, '__name__', 'generator')
+    return wrapped
 
 ALIAS_CALLS = {'asarray', 'asanyarray', 'atleast_1d', 'atleast_2d', 'atleast_3d', 'ravel', 'reshape', 'squeeze', 'view',
                'transpose', 'broadcast_to', 'ascontiguousarray', 'swapaxes', 'moveaxis', 'diagonal',
@@ -328,6 +344,10 @@ def scan(repo):
                 for node in body:
                     if isinstance(node, (ast.FunctionDef, ast.AsyncFunctionDef)):
                         q = f'{prefix}.{node.name}'
+                        # a property's setter (and deleter) is its own function: own row, own key (the getter keeps the plain name)
+                        for d_ in node.decorator_list:
+                            du = ast.unparse(d_)
+                            if du.endswith(('.setter', '.deleter')): q += '.' + du.rsplit('.', 1)[1]
                         sc = FnScan(m, q, node, cached_names, mut_by_mod[m], cls is not None)
                         if parent is not None: sc.outer = {k: v for k, v in parent.final_state.items() if v}
                         sc.run()
@@ -449,6 +469,7 @@ def scan(repo):
         rows[q]['params'] = s.params
         rows[q]['sites'] = sorted(s.writes, key=lambda t: t[2])
         rows[q]['rng_args'] = list(s.rng_args); rows[q]['seed_forward'] = sorted(set(s.seed_forward))
+        rows[q]['returns'] = sorted(s.returns); rows[q]['takes_seed'] = 'seed' in s.params
         rows[q]['paths'] = sorted((r, a.lstrip('_')) for r, a in s.paths if a)
     return rows, sorted(caches), sorted(module_state)
 
@@ -475,6 +496,10 @@ structure EffRow where
   seedForward : List (String × String) := []
   /-- (parameter slot, attribute) through which the function's own in-place write sites go (`self.opd`, `self.tilt`) -/
   writePaths : List (String × String) := []
+  /-- parameters the returned value may BE (a view/alias of): the result is then not a fresh object -/
+  returnsAlias : List String := []
+  /-- the function has a parameter named `seed` -/
+  takesSeed : Bool := false
 deriving Repr, DecidableEq
 ''']
     lines = []
@@ -487,7 +512,7 @@ deriving Repr, DecidableEq
             pw.setdefault(root, kind)
         cw = sorted({root[6:] for root, _ in r['writes'] if root.startswith('cache:')})
         gw = sorted({root[7:] for root, _ in r['writes'] if root.startswith('global:')})
-        interesting = pw or cw or gw or r['rng'] or r['seeded'] or r['captures'] or r['public'] or r['rng_args'] or r['seed_forward']
+        interesting = pw or cw or gw or r['rng'] or r['seeded'] or r['captures'] or r['public'] or r['rng_args'] or r['seed_forward'] or r['takes_seed']
         if not interesting: continue
         lines.append('  { fn := %s, pub := %s, writes := [%s], captures := [%s], globalRng := %s, seeded := %s, cacheWrites := [%s], globalWrites := [%s]%s }' % (
             _s(q), 'true' if r['public'] else 'false',
@@ -497,7 +522,9 @@ deriving Repr, DecidableEq
             ', '.join(_s(x) for x in cw), ', '.join(_s(x) for x in gw),
             ((', rngArgs := [%s]' % ', '.join(_s(x) for x in r['rng_args'])) if r['rng_args'] else '') +
             ((', seedForward := [%s]' % ', '.join(f'({_s(a)}, {_s(b)})' for a, b in r['seed_forward'])) if r['seed_forward'] else '') +
-            ((', writePaths := [%s]' % ', '.join(f'({_s(a)}, {_s(b)})' for a, b in sorted(set(r['paths'])))) if r['paths'] else '')))
+            ((', writePaths := [%s]' % ', '.join(f'({_s(a)}, {_s(b)})' for a, b in sorted(set(r['paths'])))) if r['paths'] else '') +
+            ((', returnsAlias := [%s]' % ', '.join(_s(a) for a in r['returns'])) if r['returns'] else '') +
+            (', takesSeed := true' if r['takes_seed'] else '')))
         if pw or cw or gw or r['rng']:
             notes.append(f"{q}: writes {sorted(pw)} cache {cw} globals {gw} rng {sorted(r['rng'])}")
     out.append('def effTable : List EffRow := [\n' + ',\n'.join(lines) + '\n]\n')
@@ -506,7 +533,7 @@ deriving Repr, DecidableEq
     return '\n'.join(out), notes
 
 
-MODULES = [{'name': 'Effects', 'src': 'lentil/__init__.py', 'generator': generator, 'props': ['C10', 'C16', 'C18']}]
+MODULES = [{'name': 'Effects', 'src': 'lentil/__init__.py', 'generator': _robust(generator, 'effect-site scan'), 'props': ['C10', 'C16', 'C18']}]
 
 if __name__ == '__main__':
     import sys
